@@ -17,6 +17,7 @@ def make_cases(tier, seed):
     quick = tier == "quick"
     small = [
         ("setrange_gap", gen_str.gap_cases()),
+        ("aliasing", gen_str.aliasing_cases()),
         ("set_options", gen_str.set_option_cases()),
         ("indexes", gen_str.index_cases()),
         ("generic_keys_all_types", gen_str.generic_key_cases()),
